@@ -5,6 +5,7 @@ import (
 	"strconv"
 	"strings"
 	"testing"
+	"time"
 
 	"pgregory.net/rapid"
 
@@ -219,4 +220,108 @@ func TestC09(t *testing.T) {
 			rec.Sample(nt, map[string]interface{}{"config": cfg.String(), "sequence": descr})
 		}
 	})
+}
+
+// TestC09Aging: TTL mistakes that only show when time passes between the
+// command that fixed the expiry and a later command that must not move it
+// (an append/prepend that rewrites a chunked item, a get that re-populates
+// L1).  One real sleep is shared by all configurations.
+func TestC09Aging(t *testing.T) {
+	rec := evid.For("C09")
+	type env struct {
+		cfg   stack.Config
+		st    *stack.Stack
+		ses   *session
+		model *refmodel.Model
+	}
+	keys := []string{"g1", "g2", "g3", "g4", "g5"}
+	var envs []*env
+	for _, shape := range []string{"l1only", "l1l2+batch"} {
+		for _, l1 := range []string{"std", "chunked", "batched"} {
+			l2s := []string{"-"}
+			if shape != "l1only" {
+				l2s = []string{"std", "batched"}
+			}
+			for _, l2 := range l2s {
+				cfg := stack.Config{Shape: shape, Lock: "nolock", L1: l1, L2: l2}
+				st := stack.Get(cfg)
+				envs = append(envs, &env{cfg: cfg, st: st, ses: newSession(st, true), model: refmodel.New()})
+			}
+		}
+	}
+	fail := func(e *env, phase, msg string) {
+		p := rec.Violation("TestC09Aging", map[string]interface{}{"config": e.cfg.String(), "phase": phase, "problem": msg})
+		t.Errorf("C09 aging %s, %s: %s; replay %s", e.cfg, phase, msg, p)
+	}
+	do := func(e *env, c wire.Cmd) bool {
+		now := nowUnix()
+		exp := e.model.Apply(c, now)
+		got, err := e.ses.client(c.Port).Do(c)
+		if err != nil {
+			fail(e, c.String(), "harness: "+err.Error())
+			return false
+		}
+		if msg := compare(c, true, exp, got); msg != "" {
+			fail(e, c.String(), "reply: "+msg)
+			return false
+		}
+		return true
+	}
+	check := func(e *env, phase string) {
+		now := nowUnix()
+		if e.cfg.Shape == "l1only" {
+			if msg := tierDeadlines("L1", e.st.L1, e.cfg.L1 == "chunked", e.model, keys, now, true); msg != "" {
+				fail(e, phase, msg)
+			}
+			return
+		}
+		if msg := tierDeadlines("L2", e.st.L2, false, e.model, keys, now, true); msg != "" {
+			fail(e, phase, msg)
+		}
+		if msg := tierDeadlines("L1", e.st.L1, e.cfg.L1 == "chunked", e.model, keys, now, false); msg != "" {
+			fail(e, phase, msg)
+		}
+	}
+	big := mkValue(5, 2500)
+	for _, e := range envs {
+		batch := 0
+		if e.cfg.Shape == "l1l2+batch" {
+			batch = 1
+		}
+		ok := do(e, wire.Cmd{Kind: wire.Set, Key: "g1", Value: big, Flags: 1, Exptime: 100}) &&
+			do(e, wire.Cmd{Kind: wire.Touch, Key: "g1", Exptime: 200}) &&
+			do(e, wire.Cmd{Kind: wire.Set, Key: "g2", Value: []byte("two"), Flags: 2, Exptime: 0}) &&
+			do(e, wire.Cmd{Kind: wire.Gat, Key: "g2", Exptime: 300}) &&
+			do(e, wire.Cmd{Kind: wire.Set, Key: "g3", Value: big, Flags: 3, Exptime: 5000}) &&
+			do(e, wire.Cmd{Kind: wire.Set, Key: "g4", Value: []byte("four"), Flags: 4, Exptime: 100, Port: batch}) &&
+			do(e, wire.Cmd{Kind: wire.Set, Key: "g5", Value: big, Flags: 5, Exptime: 400}) &&
+			do(e, wire.Cmd{Kind: wire.Touch, Key: "g5", Exptime: 500, Port: batch})
+		if ok {
+			check(e, "before the pause")
+		}
+	}
+	time.Sleep(6 * time.Second)
+	for _, e := range envs {
+		batch := 0
+		if e.cfg.Shape == "l1l2+batch" {
+			batch = 1
+			// force a re-population of L1 for g3 and g5
+			if e.cfg.L1 == "chunked" {
+				e.st.L1.Evict("g3-meta", "g3-0", "g3-1", "g3-2", "g5-meta", "g5-0", "g5-1", "g5-2")
+			} else {
+				e.st.L1.Evict("g3", "g5")
+			}
+		}
+		ok := do(e, wire.Cmd{Kind: wire.Append, Key: "g1", Value: []byte("<late append>")}) &&
+			do(e, wire.Cmd{Kind: wire.Prepend, Key: "g2", Value: []byte("<late prepend>"), Port: batch}) &&
+			do(e, wire.Cmd{Kind: wire.Get, Keys: []string{"g3", "g5", "g1"}}) &&
+			do(e, wire.Cmd{Kind: wire.Append, Key: "g4", Value: []byte("<late append>")}) &&
+			do(e, wire.Cmd{Kind: wire.Prepend, Key: "g5", Value: []byte("<p>")})
+		if ok {
+			check(e, "after a 6 s pause followed by append/prepend/get")
+		}
+		rec.Case(true, "aging|"+e.cfg.String(), "aging")
+		e.ses.close()
+	}
+	rec.Sample(true, map[string]interface{}{"aging_scenario": "set/touch/gat with TTLs, 6 s pause, then append/prepend and a re-populating get; deadlines must still be the ones fixed before the pause", "configurations": len(envs)})
 }
